@@ -226,6 +226,18 @@ theorem count_exact {s g a} (h : Reach allocateFixed (fun _ _ => True) s g a) :
   have := drain_fixed hinv n hn
   exact ⟨this, by rw [this.length_eq, hlen]⟩
 
+/-- "no page is handed out twice while allocated", over a whole run of allocations: the pages
+returned by any number of successive allocations are pairwise distinct, were all released before,
+and none of them is currently allocated -/
+theorem drain_distinct_unallocated {s g a} (h : Reach allocateFixed (fun _ _ => True) s g a)
+    (n : Nat) (hn : s.freeCount ≤ n) :
+    (drain allocateFixed n s).Nodup ∧ ∀ p ∈ drain allocateFixed n s, p ∈ g ∧ p ∉ a := by
+  have hperm := ((count_exact h).2 n hn).1
+  have hg := ghost_disjoint h
+  refine ⟨hperm.nodup_iff.mpr hg.1, fun p hp => ?_⟩
+  have hpg : p ∈ g := hperm.mem_iff.mp hp
+  exact ⟨hpg, fun hpa => hg.2 p hpa hpg⟩
+
 /-- the witness of `trunk_leak_counterexample` behaves correctly after the repair -/
 theorem trunk_returned : (allocateFixed (release (St.init 8) 5).1).2 = .page 5 := by decide
 
